@@ -96,6 +96,8 @@ def stratified(traces: List[List[Dict[str, Any]]], n: int, seed: int) -> List[Li
         groups.setdefault(key, []).append(t)
     keys = sorted(groups)
     rng.shuffle(keys)
+    # requests naming several subsystems first: they are the ones that merge / reorder / bind operand order
+    keys.sort(key=lambda k: -len(json.loads(k)[2] or []))
     for k in keys:
         rng.shuffle(groups[k])
     out: List[List[Dict[str, Any]]] = []
